@@ -307,21 +307,47 @@ def parse_time_functions(ctx, include_normalizers=True, with_loading=True, only=
     """Functions reachable from the non-caching parse / tokenize / issue-listing entry points.
     Calls of Grammar.parse that are only reachable under a true `cache` / `diff_cache` test are dropped."""
     prog, cg = ctx.prog, ctx.cg
-    gp = prog.func('parso/grammar.py', 'Grammar.parse')
+    gp0 = prog.func('parso/grammar.py', 'Grammar.parse')
+    # the steps Grammar.parse was split into are read in place (inlined view): which calls sit behind `if cache` /
+    # `if diff_cache` is a question about the whole pipeline, not about the function that happens to hold the call
+    gp = ctx.view(gp0)
+    inlined = set(getattr(gp, 'inlined', ()) or ())
     cfg = ctx.cfg(gp)
     cache_test = lambda e: norm(e) in ('cache', 'diff_cache')
-    dropped = set()
-    for n in cfg.nodes:
-        for c in calls_in(n, lambda c: True):
-            if only_via(cfg, n, cache_test, 'T'):
-                dropped.add(id(c))
     roots = []
     edges = dict(cg.edges)
     keep = set()
-    for site in cg.sites[gp.key]:
-        if id(site.node) not in dropped:
-            keep |= {t.key for t in site.targets}
-    edges[gp.key] = keep
+    for n in cfg.nodes:
+        for c in calls_in(n, lambda c: True):
+            if only_via(cfg, n, cache_test, 'T'):
+                continue
+            try:
+                targets, _how = cg.resolve_call(gp, c)
+            except Exception:
+                targets = []
+            keep |= {t.key for t in targets if isinstance(t, Func)}
+            for t in targets:
+                if isinstance(t, Cls):
+                    init = t.lookup('__init__')
+                    if init is not None:
+                        keep.add(init.key)
+    if not inlined:
+        # nothing was inlined: the plain call sites of the function are authoritative (constructor expansion etc.)
+        cfg0 = ctx.cfg(gp0)
+        dropped = set()
+        for n in cfg0.nodes:
+            for c in calls_in(n, lambda c: True):
+                if only_via(cfg0, n, cache_test, 'T'):
+                    dropped.add(id(c))
+        keep = set()
+        for site in cg.sites[gp0.key]:
+            if id(site.node) not in dropped:
+                keep |= {t.key for t in site.targets}
+    else:
+        # the helpers themselves are reached only through the view
+        keep -= {k for k in keep if k[0] == gp0.key[0] and k[1].split('.')[-1] in inlined}
+    edges[gp0.key] = keep
+    gp = gp0
     names = [('parso/grammar.py', 'Grammar.parse'), ('parso/grammar.py', 'PythonGrammar._tokenize_lines'),
              ('parso/grammar.py', 'PythonGrammar._tokenize'), ('parso/python/tokenize.py', 'tokenize'),
              ('parso/python/tokenize.py', 'tokenize_lines')]
